@@ -13,11 +13,11 @@ if [ "${SKIP_BASELINE:-0}" != 1 ]; then
   echo "== repository test-suite on the mutant:"
   /verif/tools/baseline.sh $S /tmp/vf_mut_bld.$$ | tail -1
 fi
-mkdir -p /tmp/vf_ev.$$; cp /verif/evidence/*.json /tmp/vf_ev.$$/ 2>/dev/null
+mkdir -p /tmp/vf_ev.$$ /tmp/vf_bld.$$; export VERIF_EVIDENCE_DIR=/tmp/vf_ev.$$ VERIF_BUILD=/tmp/vf_bld.$$
 for p in "$@"; do
   echo "== $p quick on the mutant:"
   VERIF_REPO=$S /verif/run.sh $p ${TIER:-quick} 2>&1 | grep -E "VIOLATION|KNOWN|HARNESS|signature|^[a-z]+ C[0-9]+ " | head -${LINES_MAX:-8}
   echo "   exit=${PIPESTATUS[0]}"
 done
-cp /tmp/vf_ev.$$/*.json /verif/evidence/ 2>/dev/null; rm -rf /tmp/vf_ev.$$
+rm -rf /tmp/vf_ev.$$ /tmp/vf_bld.$$
 rm -rf $S /tmp/vf_mut_bld.$$
